@@ -2383,7 +2383,7 @@ static iwrc _lx_split_addkv(struct iwlctx *lx, int idx, struct sblk *sblk) {
 
   pthread_spin_lock(&db->cursors_slk);
   for (struct iwkv_cursor *cur = db->cursors; cur; cur = cur->next) {
-    if (cur->cn && (cur->cn->addr == sblk->addr) && !(cur->cn->flags & SBLK_DB)) {
+    if (!uside && cur->cn && (cur->cn->addr == sblk->addr) && !(cur->cn->flags & SBLK_DB)) {
       if (cur->cnpos >= pivot) {
         memcpy(cur->cn, nb, sizeof(*cur->cn));
         cur->cn->kvblk = 0;
